@@ -28,8 +28,10 @@ def renderedHeader (c : HdrCfg) (info : Extracted) : Except HeaderErr Text :=
 
 /-- the guard of `_create_new_header` as a Boolean -/
 def guardOk (c : HdrCfg) (info : Extracted) (result : Text) : Bool :=
-  sameSet info.cpr (extractRaw result).cpr &&
-    sameSet (info.lic.map c.normLic) ((extractRaw result).lic.map c.normLic)
+  (extractRaw result).lic.all c.parses &&
+  (sameSet info.cpr (extractRaw result).cpr &&
+    sameSet (info.lic.map c.normLic) ((extractRaw result).lic.map c.normLic) &&
+    ((extractRaw result).con.isEmpty || sameSet info.con (extractRaw result).con))
 
 theorem createNewHeader_eq (c : HdrCfg) (info : Extracted) :
     createNewHeader c info =
